@@ -138,7 +138,9 @@ fn lib_dis(d: &Dict, default: Option<&str>) -> String {
     dict_to_dis(d, &loc, default.map(Cow::Borrowed)).to_string()
 }
 
-const PIECES: [&str; 34] = [
+const PIECES: [&str; 46] = [
+    // the display tags themselves are ordinary tags inside a pattern
+    "$dis", "${disMacro}", "$disMacro", "$disKey", "${name}", "$def", "$tag", "${navName}", "$id", "$navName", "$name", "${id}",
     "$pwr", "${pwr}", "$tempSp", "pwr",
     "$", "{", "}", "<", ">", "a", "b", "ab", "aB_9", "siteRef", "k", "kx", "pod::key", " ", "é", "$a", "${a}", "${ab}", "$<k>", "$<x>", "$ab", "$siteRef", "$$", "${", "$<", "x", "A", "_", "9", "😀",
 ];
